@@ -7,6 +7,7 @@ environment entry list / link parts), written independently of the code under te
 Where the statement is silent (see ASSUMPTIONS) every listed answer is accepted.
 """
 import atexit
+import errno
 import os
 import shutil
 import tempfile
@@ -229,13 +230,15 @@ def gen_link(rng, which):
         return dict(form="deleted_literal", target="$T/lit" if which == "exe" else rng.choice(["$T/litdir", "$T/lit"]))
     if r < 0.82:
         return dict(form="nul_deleted_stale", target="$T/real_exe", garbage=rng.choice(NUL_GARBAGE))
-    return dict(form="withheld")
+    # the kernel withholds the link of a live process: ENOENT (kernel thread, no executable) or ESRCH (exec / exit in
+    # progress, upstream issues #503 / #2514) while /proc/<pid> itself stays visible
+    return dict(form=rng.choice(["withheld", "withheld", "withheld_esrch"]))
 
 
 def gen_case(rng):
     comm, argv0 = gen_comm_and_argv0(rng)
     exe = gen_link(rng, "exe")
-    if exe["form"] == "withheld" and rng.random() < 0.6:
+    if exe["form"].startswith("withheld") and rng.random() < 0.6:
         # the fallback of exe() looks at argv[0]
         argv0 = rng.choice([b"$T/real_exe", b"$T/plain_file", b"$T/real_dir", b"$T/gone", b"real_exe", b"$T/my exe",
                             b"$T/exe_long_name_0123456789", b"/bin/sh", b"/nonexistent/x", b"$T/lit (deleted)"])
@@ -277,7 +280,7 @@ def boundary_cases():
     links += [dict(form="deleted_stale", target="$T/real_exe"), dict(form="deleted_stale", target="$T/real_dir"),
               dict(form="deleted_gone", target="$T/gone"), dict(form="deleted_gone", target="/usr/bin/vanished"),
               dict(form="deleted_literal", target="$T/lit"), dict(form="deleted_literal", target="$T/litdir"),
-              dict(form="withheld")]
+              dict(form="withheld"), dict(form="withheld_esrch")]
     for ln in links:
         for argv0 in ("$T/real_exe", "$T/plain_file", "$T/real_dir", "$T/gone", "real_exe", "$T/my exe", ""):
             for zombie in (False, True):
@@ -312,6 +315,8 @@ def render_link(ln, tmp):
     f = ln["form"]
     if f == "withheld":
         return None
+    if f == "withheld_esrch":
+        return ProcessLookupError(errno.ESRCH, os.strerror(errno.ESRCH))
     t = subst(ln["target"], tmp)
     if f == "nul":
         t += ln["garbage"]
@@ -374,7 +379,7 @@ def want_environ(env):
 def want_link(ln, tmp):
     """-> set of acceptable strings for a live process."""
     f = ln["form"]
-    if f == "withheld":
+    if f.startswith("withheld"):
         return {""}
     t = os.fsdecode(_b(subst(ln["target"], tmp)))
     if f in ("plain", "nul", "deleted_stale", "nul_deleted_stale"):
@@ -394,7 +399,7 @@ def is_exec_file(path):
 
 
 def want_exe(ln, tmp, cmdlines):
-    if ln["form"] != "withheld":
+    if not ln["form"].startswith("withheld"):
         return want_link(ln, tmp), False
     out = set()
     fb = False
